@@ -1042,6 +1042,27 @@ def run(ctx):
                     if nm in actual and a[0] == "u" and actual[nm] != [1, 100 + a[1]]:
                         ctx.violation("actions[%r] is not the action of symbol %s" % (nm, nm), rep,
                                       key="override-ignored")
+    # ---- sanity floor: the curated specs must construct and parse (a change that breaks grammar
+    # construction altogether must not let the check pass on an empty comparison)
+    expected_init_error = {"unresolved_name", "list_len_mismatch", "list_on_terminal"}
+    for r in results:
+        if r["name"].startswith("rand"):
+            continue
+        rep = {"grammar": r["gtext"], "actions": r["spec"]["actions"], "spec": r["spec"]}
+        c = r.get("construct")
+        if r["gerr"]:
+            ctx.violation("curated grammar %s is rejected by Grammar.from_string: %s" % (r["name"], r["gerr"]),
+                          rep, key="curated-gerr")
+        elif r["name"] in expected_init_error:
+            if c[0] != "ParserInitError":
+                ctx.violation("curated case %s: expected ParserInitError, got %r" % (r["name"], c), rep,
+                              key="curated-init")
+        elif c[0] != "ok" or not any(x.get("tree") is not None for x in r.get("results", {}).values()):
+            ctx.violation("curated case %s: construction %r / no accepted input" % (r["name"], c), rep,
+                          no_input=True, key="curated-ok")
+    if st["accepted"] < 200:
+        ctx.violation("only %d accepted parses were compared (generator or impl broken)" % st["accepted"],
+                      {"distribution": st}, no_input=True, key="floor")
     cov = {
         "evaluations": st["inputs"] + len(bcases),
         "distinct_nontrivial": len(distinct),
